@@ -162,8 +162,8 @@ def _cmp(ctx, got, exp, scale, sig, what, instance=None):
         return False
     err = np.abs(got - exp)
     tol = REL * (scale + np.abs(exp))
-    if np.any(err > tol):
-        w = tuple(int(i) for i in np.argwhere(err > tol)[0])
+    if C.gt(err, tol):
+        w = tuple(int(i) for i in np.argwhere(~(err <= tol))[0])
         ctx.fail(sig, f"{what}: at {w} got {got[w]!r} expected {exp[w]!r} (scale {scale:.3g})", instance=instance)
         return False
     return True
@@ -398,7 +398,7 @@ def unit_identities(ctx):
     ctx.observe(np.round(mid.array / (np.abs(mid.array).max() or 1.0), 9), r.array.shape)
     ctx.check()
     if not np.all(np.abs(r.array) <= tol):
-        w = tuple(int(i) for i in np.argwhere(np.abs(r.array) > tol)[0])
+        w = tuple(int(i) for i in np.argwhere(~(np.abs(r.array) <= tol))[0])
         ctx.fail(sig, f"|result| = {abs(r.array[w])!r} at {w} (tolerance {tol:.3g}); "
                  f"a term of the identity has magnitude ~{fmax * pair:.3g}", instance=ctx.key(drop=("geom",)))
 
@@ -474,8 +474,8 @@ def unit_rotation(ctx):
         err = np.abs(la - ra)
         tol = REL * (scale + np.abs(ra))
         ctx.check()
-        if np.any(err > tol):
-            w = tuple(int(i) for i in np.argwhere(err > tol)[0])
+        if C.gt(err, tol):
+            w = tuple(int(i) for i in np.argwhere(~(err <= tol))[0])
             return left, (f"{op}(rotate90(f, {dims[a]}->{dims[b]}, k={k})) = {la[w]!r} but rotate90({op}(f)) = {ra[w]!r} at {w}; "
                           f"operand mapping {g.vdim_mapping}, result labels {right.vdims} mapping {right.vdim_mapping}, "
                           f"bc {g.mesh.bc!r} -> {left.mesh.bc!r}")
@@ -592,7 +592,7 @@ def unit_combination(ctx):
            "div": "Field.div/not-the-sum-of-derivatives-along-the-mapped-axes",
            "curl": "Field.curl/not-the-textbook-combination-through-the-mapping",
            "laplace_v": "Field.laplace/vector/not-the-sum-of-second-directional-derivatives"}[op]
-    if op == "laplace_v" and got.shape == exp.shape and np.any(np.abs(got - exp) > REL * (scale + np.abs(exp))) \
+    if op == "laplace_v" and got.shape == exp.shape and C.gt(np.abs(got - exp), REL * (scale + np.abs(exp))) \
             and res.array.shape == exp_pos.shape and np.all(np.abs(res.array - exp_pos) <= REL * (scale + np.abs(exp_pos))):
         sig = "Field.laplace/vector/component-axis-pairing-lost"  # numbers right by position, result mapping wrong
     _cmp(ctx, got, exp, scale, sig, f"{op} of {'tracer' if probe == 'tracer' else 'impulse %s' % (probe,)}; operand mapping "
